@@ -205,8 +205,10 @@ def check(case, ctx):
             elif name in ("set_value", "set_error"):
                 was_pending = state[0] == "pending"
                 if name == "set_value":
-                    new = ["value", ["sv", op[1]]]
-                    r, cbs = do(lambda: f.set_value(["sv", op[1]]))
+                    # falsy and None values are legal outcomes
+                    val = {2: 0, 3: None}.get(op[1], ["sv", op[1]])
+                    new = ["value", val]
+                    r, cbs = do(lambda: f.set_value(val))
                 else:
                     e = E(("se", op[1]))
                     new = ["error", e]
